@@ -82,7 +82,7 @@ func (g *sgen) ifChain(depth int) {
 func (g *sgen) stmt(depth int) {
 	g.max--
 	in := g.ind(depth)
-	k := g.rng.Intn(24)
+	k := g.rng.Intn(27)
 	if depth >= 8 {
 		k = 23
 	}
@@ -122,6 +122,14 @@ func (g *sgen) stmt(depth int) {
 		g.sb.WriteString(in + "if len(s) > x && s[x] == int(x) {\n" + in + "\t" + g.probe() + "\n" + in + "\t" + g.probe() + "\n" + in + "}\n")
 	case k == 17:
 		g.sb.WriteString(in + "func() {\n" + in + "\tif b {\n" + in + "\t\treturn\n" + in + "\t}\n" + in + "\t" + g.probe() + "\n" + in + "}()\n")
+	case k == 24 || k == 25:
+		// comparisons over operands of several types (the custom-filter rules of the history mode look at them)
+		g.sb.WriteString(in + "_ = " + []string{"x == cn", `name == "abcd"`, "b == ct", "float64(x) == 1.5", "s == nil", "x != 3", `name != "q"`,
+			"b != cf", "s != nil", "float64(cn) != float64(x)", "s[0] == x"}[g.rng.Intn(11)] + "\n")
+	case k == 26:
+		g.sb.WriteString(in + "go func() {\n")
+		g.block(depth+1, 1)
+		g.sb.WriteString(in + "}()\n")
 	case k == 14:
 		g.sb.WriteString(in + "for range s {\n")
 		g.block(depth+1, 1)
